@@ -263,6 +263,40 @@ func (tr *Tor) Kill() {
 	cancel()
 }
 
+// KillWithFullMailbox stops the torrent the way Kill does (a TorGoAway event) but with its mailbox full behind
+// that event: the loop is first parked answering a statistics query nobody collects yet, the stop event is
+// queued, the remaining slots are filled with announce requests, then the loop is released.  What the peers
+// want to tell the torrent on their way out finds no room and nobody reading.  False if the loop could not be parked.
+func (tr *Tor) KillWithFullMailbox() bool {
+	if tr.Killed {
+		return false
+	}
+	hold := make(chan *peer.TorStats)
+	select {
+	case tr.T.Event <- peer.TorGetStats{Ch: hold}:
+	default:
+		return false
+	}
+	synctest.Wait()
+	select {
+	case tr.T.Event <- peer.TorGoAway{}:
+	default:
+		<-hold
+		return false
+	}
+	for {
+		select {
+		case tr.T.Event <- peer.TorAnnounce{}:
+			continue
+		default:
+		}
+		break
+	}
+	tr.Killed = true
+	<-hold
+	return true
+}
+
 // Prefill stores pieces from truth directly (as if downloaded and verified).
 func (tr *Tor) Prefill(pieces []int) {
 	g := tr.Geo
